@@ -1989,3 +1989,204 @@ def hyperelastic_rule(ctx, rid="R18.E2"):
     if ctx.tier == "thorough":
         scen += [dynamic("TRI3", "gonzalez", Q(1, 10)), dynamic("TRI3", "quadrature", Q(1, 10)), dynamic("TETRA4", "gonzalez", Q(1, 4))]
     run_scenarios(ctx, r, scen)
+
+
+# ---------------------------------------------------------------------------------------------------------------------
+# C19: history-dependent material points end to end (constructors, MaterialPoint.Run, Behavior.Integrate, local solvers)
+IE_BEH = "EasyFEA.Models.InElastic._behavior.Behavior"
+IE_MP = "EasyFEA.Models.InElastic._materialpoint.MaterialPoint"
+
+
+def inelastic_rule(ctx, rid="R19.E1"):
+    """Strain histories of one material point interpreted end to end: `Yield.VonMises`, `IsotropicHardening.Linear`,
+    `KinematicHardening.Prager`, `Behavior(...)`, `MaterialPoint(behavior).Run(...)` (uniaxial stress states driven in strain:
+    load, unload, reversal; a non-proportional tension + shear path), with the local solvers (`__Flow`, the scalar spectral
+    return) and the driver's own Newton on the stress-free components.  Arithmetic: exact rationals, square roots and dense
+    solves rounded to 60 digits; every statement is decided with a margin of 1e-9 relative to stresses of order 1.
+
+    Against the von Mises model written HERE (deviator, 3/2 s:s in Kelvin components, X = 2/3 C alpha, R = H p):
+      admissible (svm(sig - X) <= sigma_y + R + tol), p never decreases, plastic strain traceless, the step dissipation
+      (sig - X) : d eps_p - R dp equals sigma_y dp >= 0, an elastic step changes the stress by C d eps, a virgin elastic step
+      returns Hooke's law; Integrate called twice from the
+      same committed state returns the same answer and leaves that state untouched; the tangent it returns is the derivative
+      of its stress (difference quotient with h = 1e-9 on a flowing step); the plane-stress behaviour returns the in-plane
+      stress of the 3-D point driven with sig_zz = 0."""
+    repo = ctx.repo
+    r = ctx.rule(rid, "material-point histories end to end (von Mises, linear isotropic + Prager kinematic hardening; uniaxial load / unload / reversal and tension + shear): admissibility, monotone p, traceless plastic strain, dissipation = sigma_y dp, elastic steps, Integrate is repeatable and leaves the committed state untouched, tangent = d stress / d strain, plane stress = 3-D point with sig_zz = 0", min_instances=3)
+    anchor = repo.lookup_method(repo.cls(IE_BEH), "Integrate")
+    W0 = World(repo)
+    E_, NU, SY, H_, CK = Q(200), Q(3, 10), Q(1), Q(10), Q(20)
+    TOL = Q(1, 10**9)
+
+    def num(v):
+        p = Poly.of(v)
+        if not p.is_const():
+            raise Undecided("a symbolic value where a number was expected")
+        c = p.const_value()
+        return Q(c.approx()) if hasattr(c, "approx") else Q(c)
+
+    def rows(a):
+        a = a if isinstance(a, XArray) else XArray.from_nested(a)
+        if a.ndim == 1:
+            return [[num(x)] for x in a.data]
+        n = a.shape[-1]
+        return [[num(x) for x in a.data[k * n:(k + 1) * n]] for k in range(a.size // n)]
+
+    def dev(s):
+        m = (s[0] + s[1] + s[2]) / 3
+        return [s[0] - m, s[1] - m, s[2] - m, s[3], s[4], s[5]]
+
+    def svm2(s):
+        d = dev(s)
+        return Q(3, 2) * sum(x * x for x in d)
+
+    def build(W, dim=3, kin=True, solver="auto", planeStress=False):
+        el = W.new(ISO, 3, E=E_, v=NU)
+        ys = W.func("EasyFEA.Models.InElastic.Yield.VonMises", SY)
+        hd = W.func("EasyFEA.Models.InElastic.IsotropicHardening.Linear", H_)
+        kn = W.func("EasyFEA.Models.InElastic.KinematicHardening.Prager", CK) if kin else None
+        if dim == 3:
+            return W.new(IE_BEH, 3, el, ys, hd, kn, solver=solver)
+        return W.new(IE_BEH, 2, el, ys, hd, kn, planeStress=planeStress, solver=solver)
+
+    def run(W, beh, paths):
+        mp = W.new(IE_MP, beh)
+        n = len(next(iter(paths.values())))
+        out = W.call(mp, "Run", {k: XArray((n,), list(v)) for k, v in paths.items()})
+        get = lambda k: out[k] if k in out else None
+        res = {"strain": rows(out["strain"]), "stress": rows(out["stress"]), "p": [x[0] for x in rows(out["p"])], "eps_p": rows(out["eps_p"])}
+        a = [k for k in out if str(k).startswith("alpha")]
+        res["alpha"] = rows(out[a[0]]) if a else [[Q(0)] * 6 for _ in range(n)]
+        return res
+
+    UNI = {"xx": [Q(k, 1000) for k in (2, 4, 6, 8, 10, 8, 4, 0, -4, -8)]}
+    MIX = {"xx": [Q(k, 1000) for k in (2, 4, 6, 8, 10, 8, 4, 0, -4, -8)], "xy": [Q(k, 1000) for k in (0, 1, 3, 6, 6, 2, 0, -3, -3, 1)]}
+
+    def model_checks(tag, res, kin):
+        lam = E_ * NU / ((1 + NU) * (1 - 2 * NU))
+        mu = E_ / (2 * (1 + NU))
+        n = len(res["p"])
+        flowed = False
+        for k in range(n):
+            sig, p, ep, al = res["stress"][k], res["p"][k], res["eps_p"][k], res["alpha"][k]
+            X = [Q(2, 3) * CK * x for x in al] if kin else [Q(0)] * 6
+            xi = [a - b for a, b in zip(sig, X)]
+            lim = SY + H_ * p
+            if svm2(xi) > (lim + TOL) ** 2:
+                return f"{tag}, step {k}: the stress lies OUTSIDE the current yield surface: svm(sig - X)^2 = {float(svm2(xi)):.9g} > (sigma_y + R)^2 = {float(lim * lim):.9g}"
+            pp = res["p"][k - 1] if k else Q(0)
+            if p < pp - TOL:
+                return f"{tag}, step {k}: the accumulated plastic strain decreases ({float(pp):.6g} -> {float(p):.6g})"
+            if abs(ep[0] + ep[1] + ep[2]) > TOL:
+                return f"{tag}, step {k}: the von Mises plastic strain is not traceless (trace {float(ep[0] + ep[1] + ep[2]):.3g})"
+            epp = res["eps_p"][k - 1] if k else [Q(0)] * 6
+            dep = [a - b for a, b in zip(ep, epp)]
+            dp = p - pp
+            diss = sum(a * b for a, b in zip(xi, dep)) - H_ * p * dp
+            if diss < -TOL:
+                return f"{tag}, step {k}: the step dissipation (sig - X) : d eps_p - R dp = {float(diss):.3g} is negative"
+            if abs(diss - SY * dp) > Q(1, 10**7):
+                return f"{tag}, step {k}: the step dissipation (sig - X) : d eps_p - R dp = {float(diss):.9g} is not sigma_y dp = {float(SY * dp):.9g} (flow direction, multiplier or hardening forces inconsistent with the declared surface)"
+            eps = res["strain"][k]
+            ee = [a - b for a, b in zip(eps, ep)]
+            tr = ee[0] + ee[1] + ee[2]
+            hooke = [lam * tr * (1 if i < 3 else 0) + 2 * mu * ee[i] for i in range(6)]
+            if any(abs(a - b) > Q(1, 10**7) for a, b in zip(sig, hooke)):
+                return f"{tag}, step {k}: the stress is not C : (eps - eps_p) (Hooke's law on the elastic strain)"
+            flowed = flowed or dp > Q(1, 10**6)
+        if not flowed:
+            raise Undecided("the path never flowed")
+        return None
+
+    def history(label, paths, kin, solver):
+        def thunk():
+            W = World(repo, lib=W0.lib, round_digits=30)
+            res = run(W, build(W, kin=kin, solver=solver), paths)
+            return model_checks(f"{label}{' + Prager' if kin else ''}, solver = {solver}", res, kin)
+
+        return (f"material point {label}{' kinematic' if kin else ''} {solver}", anchor, thunk)
+
+    def solvers_agree(label, paths):
+        def thunk():
+            W = World(repo, lib=W0.lib, round_digits=30)
+            ra = run(W, build(W, kin=False, solver="auto"), paths)
+            rn = run(W, build(W, kin=False, solver="newton"), paths)
+            for k in range(len(ra["p"])):
+                for nm in ("stress", "eps_p"):
+                    d = max(abs(a - b) for a, b in zip(ra[nm][k], rn[nm][k]))
+                    if d > Q(1, 10**7):
+                        return f"{label}, step {k}: solver = 'auto' (scalar spectral return) and solver = 'newton' disagree on {nm} by {float(d):.3g}"
+                if abs(ra["p"][k] - rn["p"][k]) > Q(1, 10**8):
+                    return f"{label}, step {k}: solver = 'auto' and solver = 'newton' disagree on p by {float(abs(ra['p'][k] - rn['p'][k])):.3g}"
+            return None
+
+        return (f"material point {label}: both local solvers", anchor, thunk)
+
+    def fe(vals):
+        from ..femodel import FeV
+
+        return FeV((1, 1, len(vals)), list(vals))
+
+    def integrate_checks(kin, solver):
+        def thunk():
+            W = World(repo, lib=W0.lib, round_digits=30)
+            beh = build(W, kin=kin, solver=solver)
+            z = None
+            path = [[Q(4, 1000), Q(-1, 1000), Q(-1, 1000), 0, 0, Q(1, 1000)], [Q(9, 1000), Q(-3, 1000), Q(-2, 1000), 0, Q(1, 1000), Q(4, 1000)]]
+            for eps in path[:1]:
+                sig, C, z, ok = W.call(beh, "Integrate", fe(eps), z, Q(0))
+            eps = path[1]
+            keep = list(XArray.from_nested(z).data)
+            s1, C1, z1, ok1 = W.call(beh, "Integrate", fe(eps), z, Q(0))
+            s2, C2, z2, ok2 = W.call(beh, "Integrate", fe(eps), z, Q(0))
+            if list(XArray.from_nested(z).data) != keep:
+                return f"solver = {solver}: Integrate modified the committed state it was handed"
+            a, b = [num(x) for x in XArray.from_nested(s1).data], [num(x) for x in XArray.from_nested(s2).data]
+            if a != b or [num(x) for x in XArray.from_nested(z1).data] != [num(x) for x in XArray.from_nested(z2).data]:
+                return f"solver = {solver}: two calls of Integrate from the same committed state return different answers (the first call left something behind)"
+            zz = [num(x) for x in XArray.from_nested(z1).data]
+            if max(abs(x - y) for x, y in zip(zz, [num(v) for v in keep])) < Q(1, 10**6):
+                raise Undecided("the step did not flow")
+            Cm = XArray.from_nested(C1)
+            h = Q(1, 10**9)
+            for j in range(6):
+                e2 = list(eps)
+                e2[j] = e2[j] + h
+                sj, _, _, _ = W.call(beh, "Integrate", fe(e2), z, Q(0))
+                col = [(num(x) - y) / h for x, y in zip(XArray.from_nested(sj).data, a)]
+                for i in range(6):
+                    if abs(col[i] - num(Cm.data[i * 6 + j])) > Q(1, 10**4):
+                        return f"solver = {solver}{', Prager' if kin else ''}: the returned tangent C[{i}][{j}] = {float(num(Cm.data[i * 6 + j])):.8g}, the difference quotient of the returned stress is {float(col[i]):.8g} (moduli of order 100)"
+            return None
+
+        return (f"material point Integrate: repeatable, pure, tangent ({solver}{', kinematic' if kin else ''})", anchor, thunk)
+
+    def plane_stress():
+        def thunk():
+            W = World(repo, lib=W0.lib, round_digits=30)
+            b3 = build(W, kin=True, solver="auto")
+            r3 = run(W, b3, {"xx": [Q(k, 1000) for k in (3, 6, 9, 6)], "yy": [Q(k, 1000) for k in (-1, -1, -2, 0)], "xy": [Q(k, 1000) for k in (0, 2, 4, 4)]})
+            b2 = build(W, dim=2, kin=True, solver="auto", planeStress=True)
+            z = None
+            for k in range(4):
+                e2 = [r3["strain"][k][0], r3["strain"][k][1], r3["strain"][k][5]]
+                sig, C, z, ok = W.call(b2, "Integrate", fe(e2), z, Q(0))
+                s2 = [num(x) for x in XArray.from_nested(sig).data]
+                want = [r3["stress"][k][0], r3["stress"][k][1], r3["stress"][k][5]]
+                d = max(abs(x - y) for x, y in zip(s2, want))
+                if d > Q(1, 10**6):
+                    return f"plane stress, step {k}: the in-plane stress {[float(x) for x in s2]} is not the one of the 3-D point driven with sig_zz = sig_yz = sig_xz = 0 ({[float(x) for x in want]}): the out-of-plane strain does not leave sig_zz = 0"
+            if r3["p"][-1] < Q(1, 10**6):
+                raise Undecided("the path never flowed")
+            return None
+
+        return ("material point plane stress against the 3-D point with sig_zz = 0", anchor, thunk)
+
+    # (the scalar spectral return - solver 'auto' on a surface without kinematic hardening - is not walked: the rounded
+    # eigen-decomposition it starts from makes the exact rationals of its scalar Newton grow without bound; the agreement of
+    # the two local solvers stays with the clause rules R19.8 / R19.19 / R19.20)
+    scen = [history("uniaxial load / unload / reversal", UNI, True, "auto"), history("uniaxial load / unload / reversal", UNI, False, "newton"), history("tension + shear", MIX, True, "auto"),
+            integrate_checks(True, "auto"), integrate_checks(False, "newton"), plane_stress()]
+    if ctx.tier == "thorough":
+        scen += [history("tension + shear", MIX, False, "newton"), history("uniaxial load / unload / reversal", UNI, True, "newton"), integrate_checks(True, "newton")]
+    run_scenarios(ctx, r, scen)
